@@ -17,6 +17,9 @@ theorem gen_closeSetsFlag : Gen.C19.closeSetsFlag = false := by decide
 theorem gen_scfConnectedSets : Gen.C19.scfConnectedSets = true := by decide
 theorem gen_scfFailedSets : Gen.C19.scfFailedSets = false := by decide
 theorem gen_scfDisconnectedSets : Gen.C19.scfDisconnectedSets = false := by decide
+theorem gen_openGuardInTry : Gen.C19.openGuardInTry = false := by decide
+theorem gen_initIsOpen : Gen.C19.initIsOpen = false := by decide
+theorem gen_scfInitIsOpen : Gen.C19.scfInitIsOpen = false := by decide
 
 @[simp] theorem upd_same {α} (f : Nat → α) (i : Nat) (x : α) : upd f i x i = x := by simp [upd]
 theorem upd_other {α} (f : Nat → α) (i j : Nat) (x : α) (h : j ≠ i) : upd f i x j = f j := by simp [upd, h]
